@@ -30,6 +30,8 @@ type Program struct {
 	Gate     bool     `json:"gate,omitempty"`     // worker function blocks until released
 	Errs     bool     `json:"errs,omitempty"`     // a goroutine consumes Errs()
 	MaxTicks int      `json:"maxticks,omitempty"`
+	TickHold bool     `json:"tickhold,omitempty"` // ticks fire only after the op "ticks"
+	PCT      bool     `json:"pct,omitempty"`      // prefer priority-based schedules (few preemptions at random depths)
 	TickBias int      `json:"tickbias,omitempty"`
 	Faults   []Fault  `json:"faults,omitempty"`
 	Preload  []int    `json:"preload,omitempty"` // payloads already on adapter 0 before binding
@@ -641,6 +643,12 @@ func (e *env) exec(op Op) {
 		rt.Yield()
 	case "waitidle":
 		rt.WaitIdle()
+	case "ticks":
+		rt.AllowTicks()
+	case "advance":
+		// virtual time passes without a tick (N nanoseconds)
+		rt.Yield()
+		rt.Advance(time.Duration(op.N))
 	}
 }
 
